@@ -17,6 +17,7 @@ import (
 	"encoding/json"
 	"fmt"
 	"math"
+	"math/rand"
 	"strings"
 	"testing"
 	"unicode/utf8"
@@ -638,7 +639,10 @@ func TestVerifC12(t *testing.T) {
 		b, _ := (&ClientPollRequest{Offer: c12nonEmpty(g), NAT: c12natNames[rng.Intn(3)]}).EncodeClientPollRequest()
 		return b[len(ClientVersion)+1:]
 	}
-	validMatch := func() []byte { b, _ := EncodePollResponseWithRelayURL(c12nonEmpty(g), true, "restricted", "", ""); return b }
+	validMatch := func() []byte {
+		b, _ := EncodePollResponseWithRelayURL(c12nonEmpty(g), true, "restricted", "", "")
+		return b
+	}
 	badVersions := []string{"2.0", "", "0.9", "11.3", ".1", "x", " 1.0", "２.0"}
 	wrongVals := []interface{}{1.0, true, []interface{}{}, map[string]interface{}{}, []interface{}{"x"}}
 	defects := []defect{
@@ -648,8 +652,12 @@ func TestVerifC12(t *testing.T) {
 		{"rejects-missing-sid", 0, validPoll, func(m map[string]interface{}) { delete(m, "Sid") }},
 		{"rejects-missing-sid", 0, validPoll, func(m map[string]interface{}) { m["Sid"] = "" }},
 		{"rejects-missing-sid-or-answer", 4, validAns, func(m map[string]interface{}) { delete(m, []string{"Sid", "Answer"}[rng.Intn(2)]) }},
-		{"rejects-nat", 0, validPoll, func(m map[string]interface{}) { m["NAT"] = []string{"bogus", "Unknown", " ", "restricted\n"}[rng.Intn(4)] }},
-		{"rejects-nat", 6, validClient, func(m map[string]interface{}) { m["nat"] = []string{"bogus", "Unknown", " ", "restricted\n"}[rng.Intn(4)] }},
+		{"rejects-nat", 0, validPoll, func(m map[string]interface{}) {
+			m["NAT"] = []string{"bogus", "Unknown", " ", "restricted\n"}[rng.Intn(4)]
+		}},
+		{"rejects-nat", 6, validClient, func(m map[string]interface{}) {
+			m["nat"] = []string{"bogus", "Unknown", " ", "restricted\n"}[rng.Intn(4)]
+		}},
 		{"rejects-missing-offer", 6, validClient, func(m map[string]interface{}) { delete(m, "offer") }},
 		{"rejects-missing-offer", 2, validMatch, func(m map[string]interface{}) { delete(m, "Offer") }},
 		{"rejects-fingerprint", 6, validClient, func(m map[string]interface{}) {
@@ -661,7 +669,9 @@ func TestVerifC12(t *testing.T) {
 		{"rejects-wrong-type", 0, validPoll, func(m map[string]interface{}) {
 			m["Clients"] = []interface{}{"8", 1.5, true, 1e30, []interface{}{}, map[string]interface{}{}}[rng.Intn(6)]
 		}},
-		{"rejects-wrong-type", 4, validAns, func(m map[string]interface{}) { m[[]string{"Sid", "Version", "Answer"}[rng.Intn(3)]] = wrongVals[rng.Intn(len(wrongVals))] }},
+		{"rejects-wrong-type", 4, validAns, func(m map[string]interface{}) {
+			m[[]string{"Sid", "Version", "Answer"}[rng.Intn(3)]] = wrongVals[rng.Intn(len(wrongVals))]
+		}},
 		{"rejects-wrong-type", 6, validClient, func(m map[string]interface{}) {
 			m[[]string{"offer", "nat", "fingerprint"}[rng.Intn(3)]] = wrongVals[rng.Intn(len(wrongVals))]
 		}},
@@ -698,6 +708,25 @@ func TestVerifC12(t *testing.T) {
 	}
 
 	// 3. structured documents: members present / absent / null / wrong type / duplicated / re-spelled
+	{
+		ig := &vh.JGen{Rng: rand.New(rand.NewSource(r.Seed + 77))}
+		var cs []string
+		for i := 0; i < r.N(400, 4000); i++ {
+			st := c12structNames[ig.Rng.Intn(len(c12structNames))]
+			doc, _ := c12doc(ig, st)
+			cs = append(cs, fmt.Sprintf("%d|%s", ig.Rng.Intn(len(c12decoders)), doc))
+			if ig.Rng.Intn(3) == 0 { // the right decoder for the document
+				ops := c12structOps[st]
+				cs[len(cs)-1] = fmt.Sprintf("%d|%s", ops[ig.Rng.Intn(len(ops))], doc)
+			}
+		}
+		r.Independent("decoders", "the message decoders", cs, func(c string) string {
+			k := strings.IndexByte(c, '|')
+			var i int
+			fmt.Sscanf(c[:k], "%d", &i)
+			return c12decoders[i].run([]byte(c[k+1:]))
+		})
+	}
 	for i, n := 0, r.N(2500, 50000); i < n; i++ {
 		st := c12structNames[rng.Intn(len(c12structNames))]
 		doc, label := c12doc(g, st)
